@@ -16,15 +16,52 @@ Section SemFacts.
     | None => false
     end.
 
-  (* ---- a disabled call runs nothing and its outputs are null ---- *)
+  (* ---- a disabled call runs nothing and its outputs are null; for a mapped
+     call, within the latitude of the property, they may instead be a
+     collection of nulls (one per element), which nullify collapses ---- *)
+  Lemma nullify_nulls_arr (A : Type) (l : list A) :
+    nullify (JArr (map (fun _ => JNull) l)) = JNull.
+  Proof.
+    cbn [nullify]. rewrite map_map. cbn [nullify].
+    replace (forallb is_null (map (fun _ : A => JNull) l)) with true; [reflexivity|].
+    induction l as [|x l IH]; cbn; [reflexivity|exact IH].
+  Qed.
+
+  Lemma nullify_nulls_obj (keys : list (json * json)) :
+    nullify (JObj (map (fun ko : (json * json) * json =>
+                          (match fst (fst ko) with JStr s => s | _ => [] end, snd ko))
+                       (combine keys (map (fun _ => JNull) keys)))) = JNull.
+  Proof.
+    cbn [nullify]. rewrite map_map. cbn [fst snd].
+    match goal with |- (if ?b then _ else _) = _ => replace b with true; [reflexivity|] end.
+    symmetry. apply forallb_forall. intros kv Hin.
+    apply in_map_iff in Hin. destruct Hin as [[kx v] [Hk Hin]]. subst kv. cbn [snd].
+    apply in_combine_r in Hin. apply in_map_iff in Hin. destruct Hin as [x [Hx _]].
+    rewrite <- Hx. reflexivity.
+  Qed.
+
+  Lemma collect_nulls_nullify k elems :
+    nullify (collect k elems (map (fun _ => JNull) elems)) = JNull.
+  Proof.
+    destruct k; unfold collect; [apply nullify_nulls_arr | apply nullify_nulls_obj].
+  Qed.
+
   Lemma disabled_gives_null f E path c :
     is_disabled E c = true ->
-    fst (fst (ecall (S f) E path c)) = JNull /\ snd (ecall (S f) E path c) = [].
+    nullify (fst (fst (ecall (S f) E path c))) = JNull /\
+    snd (ecall (S f) E path c) = [] /\
+    (o_nulls Orc (path ++ [c_id c]) = false \/ c_mapped c = None ->
+     fst (fst (ecall (S f) E path c)) = JNull).
   Proof.
     unfold is_disabled. intros H. cbn [eval_call].
     destruct (c_disabled c) as [e|]; [|discriminate].
     destruct (eexp E e) as [| [|] | | | |]; try discriminate.
-    split; reflexivity.
+    destruct (c_mapped c) as [k|].
+    - destruct (o_nulls Orc (path ++ [c_id c])).
+      + cbn [fst snd]. split; [apply collect_nulls_nullify|]. split; [reflexivity|].
+        intros [Hx|Hx]; discriminate.
+      + cbn [fst snd]. repeat split; reflexivity.
+    - cbn [fst snd]. repeat split; reflexivity.
   Qed.
 
   (* ---- a single (unmapped) enabled call: the callee sees exactly the values
